@@ -1,69 +1,69 @@
 /*
  * models/heap_realloc.c -- model of realloc(3) for the C13 pointer-heap groups (assumed contract of external
- * code, C11 7.22.3.5): returns NULL and leaves the old object alone, or returns a new object of `size` bytes
- * whose first min(old size, size) bytes equal the old contents and releases the old object.
+ * code, C11 7.22.3.5): returns NULL and leaves the old object alone, or returns a new object whose first
+ * min(old size, size) bytes equal the old contents (the rest indeterminate) and releases the old object.
  *
  * Why not CBMC's built-in realloc: it allocates an object of *symbolic* size; an array of pointers of symbolic
- * size is encoded through the array theory byte by byte and the propositional formula for a 3-element heap
- * already exceeds 16 GB.  This model case-splits sizes that are a multiple of sizeof(void *) (the only sizes a
- * PTRLIST elastic array ever requests) up to HEAP_RA_MAXSLOTS pointers into constant-size allocations and
- * copies pointer-wise; every other size hits a MODEL-BOUND assertion (the group is then undecided).
- * Allocation failure comes from malloc (--malloc-may-fail --malloc-fail-null), realloc(p, 0) is not special-cased
- * (elasticarray.c never calls it: it frees instead).
+ * size is encoded byte-wise through the array theory and the propositional formula for a 3-element heap already
+ * exceeds 16 GB; a case split into exact constant sizes makes the points-to set of the buffer pointer so large
+ * that the SSA program explodes (80 MB at 3 elements).  Therefore: every pointer-list buffer is a heap object of
+ * constant *capacity* HEAP_RA_CAPSLOTS pointers, and its *logical* size (what was requested) is tracked in the
+ * ghost pair (g_heap_ra_buf, g_heap_ra_size).  Accesses are checked against the logical size by the ghost
+ * assertions of contracts/c13_elasticarray_bounds.spec, not by CBMC's object bounds.
+ * Requests that are not a multiple of sizeof(void *) or exceed the capacity hit a MODEL-BOUND assertion (group
+ * undecided).  Failure comes from malloc (--malloc-may-fail --malloc-fail-null).  realloc(p, 0) is not
+ * special-cased (elasticarray.c never calls it: it frees instead).
  */
 #include <stdlib.h>
 
-#ifndef HEAP_RA_MAXSLOTS
+#ifndef HEAP_RA_CAPSLOTS
 #ifdef HP_MAXN
-#define HEAP_RA_MAXSLOTS (2 * (HP_MAXN + 1))
+#define HEAP_RA_CAPSLOTS (2 * (HP_MAXN + 1))
 #else
-#define HEAP_RA_MAXSLOTS 32
+#define HEAP_RA_CAPSLOTS 32
 #endif
 #endif
-#if HEAP_RA_MAXSLOTS > 32
-#error "HEAP_RA_MAXSLOTS > 32: extend the case list"
+#if HEAP_RA_CAPSLOTS > 32
+#error "HEAP_RA_CAPSLOTS > 32: extend the copy list"
 #endif
 
-/* copy the first min(k, ncopy) pointers into the (single, constant-size) new object */
-#define RA_CP_(j, k) if ((j) < (k) && (j) < ncopy) nw[j] = old[j];
-#define RA_COPY_(k) \
-	RA_CP_(0, k) RA_CP_(1, k) RA_CP_(2, k) RA_CP_(3, k) RA_CP_(4, k) RA_CP_(5, k) RA_CP_(6, k) RA_CP_(7, k) \
-	RA_CP_(8, k) RA_CP_(9, k) RA_CP_(10, k) RA_CP_(11, k) RA_CP_(12, k) RA_CP_(13, k) RA_CP_(14, k) RA_CP_(15, k) \
-	RA_CP_(16, k) RA_CP_(17, k) RA_CP_(18, k) RA_CP_(19, k) RA_CP_(20, k) RA_CP_(21, k) RA_CP_(22, k) RA_CP_(23, k) \
-	RA_CP_(24, k) RA_CP_(25, k) RA_CP_(26, k) RA_CP_(27, k) RA_CP_(28, k) RA_CP_(29, k) RA_CP_(30, k) RA_CP_(31, k)
-#define RA_CASE_(k) if ((k) <= HEAP_RA_MAXSLOTS && slots == (k)) { \
-		nw = malloc((k) * sizeof(void *)); \
-		if (nw != NULL && old != NULL) { RA_COPY_(k) } \
-	} else
+void * g_heap_ra_buf;		/* ghost: the tracked buffer ... */
+size_t g_heap_ra_size;		/* ... and its logical size in bytes */
+
+#define RA_CP_(j) if ((j) < HEAP_RA_CAPSLOTS && (j) < ncopy) nw[j] = old[j];
 
 void *
 realloc(void * ptr, size_t size)
 {
-	size_t osize = (ptr != NULL) ? __CPROVER_OBJECT_SIZE(ptr) : 0;
-	size_t slots = size / sizeof(void *);
+	void ** nw;
 
-	if (ptr != NULL)
-		__CPROVER_assert(__CPROVER_DYNAMIC_OBJECT(ptr) && __CPROVER_POINTER_OFFSET(ptr) == 0,
-		    "realloc argument is the start of a live heap object");
-	if (size % sizeof(void *) == 0 && slots <= HEAP_RA_MAXSLOTS && osize % sizeof(void *) == 0 &&
-	    osize / sizeof(void *) <= HEAP_RA_MAXSLOTS) {
-		void ** nw;
-		void ** old = ptr;
-		size_t ncopy = (osize < size ? osize : size) / sizeof(void *);
-
-		RA_CASE_(0) RA_CASE_(1) RA_CASE_(2) RA_CASE_(3) RA_CASE_(4) RA_CASE_(5) RA_CASE_(6) RA_CASE_(7)
-		RA_CASE_(8) RA_CASE_(9) RA_CASE_(10) RA_CASE_(11) RA_CASE_(12) RA_CASE_(13) RA_CASE_(14) RA_CASE_(15)
-		RA_CASE_(16) RA_CASE_(17) RA_CASE_(18) RA_CASE_(19) RA_CASE_(20) RA_CASE_(21) RA_CASE_(22) RA_CASE_(23)
-		RA_CASE_(24) RA_CASE_(25) RA_CASE_(26) RA_CASE_(27) RA_CASE_(28) RA_CASE_(29) RA_CASE_(30) RA_CASE_(31)
-		RA_CASE_(32) { nw = NULL; }
+	if (size % sizeof(void *) != 0 || size / sizeof(void *) > HEAP_RA_CAPSLOTS) {
+		__CPROVER_assert(0, "MODEL-BOUND realloc: size is not a multiple of sizeof(void *) within the capacity");
+		__CPROVER_assume(0);
+	}
+	if (ptr == NULL) {
+		nw = malloc(HEAP_RA_CAPSLOTS * sizeof(void *));
 		if (nw == NULL)
 			return (NULL);
-		free(ptr);
-		return (nw);
 	} else {
-		/* outside the modelled range: reported as a model bound (group undecided), never silently cut off */
-		__CPROVER_assert(0, "MODEL-BOUND realloc: size is not a multiple of sizeof(void *) <= HEAP_RA_MAXSLOTS pointers");
-		__CPROVER_assume(0);
-		return (NULL);
+		void ** old = ptr;
+		size_t osize, ncopy;
+
+		__CPROVER_assert(__CPROVER_DYNAMIC_OBJECT(ptr) && __CPROVER_POINTER_OFFSET(ptr) == 0,
+		    "realloc argument is the start of a live heap object");
+		__CPROVER_assert(ptr == g_heap_ra_buf, "MODEL-BOUND realloc: only the tracked pointer-list buffer is modelled");
+		osize = g_heap_ra_size;
+		ncopy = (osize < size ? osize : size) / sizeof(void *);
+		nw = malloc(HEAP_RA_CAPSLOTS * sizeof(void *));
+		if (nw == NULL)
+			return (NULL);
+		RA_CP_(0) RA_CP_(1) RA_CP_(2) RA_CP_(3) RA_CP_(4) RA_CP_(5) RA_CP_(6) RA_CP_(7)
+		RA_CP_(8) RA_CP_(9) RA_CP_(10) RA_CP_(11) RA_CP_(12) RA_CP_(13) RA_CP_(14) RA_CP_(15)
+		RA_CP_(16) RA_CP_(17) RA_CP_(18) RA_CP_(19) RA_CP_(20) RA_CP_(21) RA_CP_(22) RA_CP_(23)
+		RA_CP_(24) RA_CP_(25) RA_CP_(26) RA_CP_(27) RA_CP_(28) RA_CP_(29) RA_CP_(30) RA_CP_(31)
+		free(ptr);
 	}
+	g_heap_ra_buf = nw;
+	g_heap_ra_size = size;
+	return (nw);
 }
